@@ -201,6 +201,10 @@ func processFile(filePath string, ctxt *processors.Context, checkOnly bool) erro
 		lines = append([]string{regexAssemblyStandardHeader}, lines...)
 	}
 	lines = formatEndOfFile(lines)
+	if len(lines) == 3 && checkStandardHeader(lines) {
+		// The empty line after the header is part of the header, keep it
+		lines = append(lines, "")
+	}
 
 	newContents := []byte(strings.Join(lines, "\n"))
 	if checkOnly {
